@@ -11,9 +11,9 @@ CLAIMED = {
          "Theorems over all trees/forests: the sampler model is exactly the uniform law on forders F, fcount F = |forders F|, every enumerated order is a permutation respecting the ancestor constraint; the model is tied to the code by comparing, for every tree over <= 4 points (all outlier subsets) and random larger ones, the exact outcome distribution of RootPermutationDistribution.sample (all shuffles enumerated), log_pdf and a brute-force enumeration with the model evaluated by vm_compute.",
          "Urn model of rng.shuffle on sentinels is a modelling step (validated exhaustively on the enumerated trees); completeness of forders w.r.t. the compatibility predicate validated by brute force, not yet proved; numpy semantics trusted.",
          "DESIGN.md section 6 C09"),
- "C01": ("Coq proof (i-SIR invariance for every particle count; general resampling in progress) + exact transition matrices of the real particle-Gibbs update (every random outcome enumerated) checked for pi P = pi",
-         "Theorem C01_isir_invariant: for every proposal Q, positive weights w and particle count, the conditional-SMC update without resampling leaves gamma = w*Q invariant. The implementation is decided by computing, for every start tree over 1-2 (thorough: 3) data points, the EXACT outcome distribution of ParticleGibbsTreeSampler.sample_tree under both wirings (run.py and library), all three proposals, outliers on/off, alpha/particles/threshold grids, and testing max|pi P - pi| <= 1e-9 against exp(log_p_one).",
-         "The theorem covers the threshold-0 scheme; adaptive resampling is validated exactly on the enumerated configurations (proof in progress). Enumerating RNG assumes numpy's laws.",
+ "C01": ("Coq proof (conditional SMC with adaptive multinomial resampling leaves the path target invariant, for every proposal, particle count, schedule and symmetric resampling criterion; auxiliary-variable lemma for the data order; i-SIR) + exact transition matrices of the real particle-Gibbs update (every random outcome enumerated) checked for pi P = pi + vm_compute correspondence of the Coq sampler model with the real ConditionalSMCSampler",
+         "Theorem C01_csmc_invariant (induction over the schedule via exchangeability of the unconditional sampler, a change of measure and slot averaging; closed under the global context) plus C01_aux_variable_invariant for the random data order. The implementation is decided by computing, for every start tree over 1-2 (thorough: 3) data points, the EXACT outcome distribution of ParticleGibbsTreeSampler.sample_tree under both wirings (run.py and library), all three proposals, outliers on/off, alpha/particles/threshold grids, and testing max|pi P - pi| <= 1e-9 against exp(log_p_one); the Coq model of the sampler, fed with proposal/weight tables read off the real kernel, reproduces the real sampler's outcome distribution row by row for fixed data orders.",
+         "The theorem's premises for PhyClone (positive weights, proposal mass one, weights telescoping to gamma_one*pdf) are C08/C09 theorems plus validation; multinomial layout modelled as iid categorical draws (validated by the correspondence); enumerating RNG assumes numpy's laws.",
          "DESIGN.md section 6 C01"),
  "C04": ("Coq proof (Gibbs-on-fibers invariance, auxiliary-mixture and composition lemmas, closed candidate set of the data-point move, refutation witnesses) + exact transition matrices of the three real moves checked for pi P = pi",
          "Theorems for every finite state space: a Gibbs redraw on a partition into fibers with state-independent candidate lists leaves the target invariant; mixtures over an independent auxiliary choice and compositions of invariant kernels are invariant; the data-point move's candidate list is closed. The real DataPointSampler / PruneRegraphSampler / ParticleGibbsSubtreeSampler are decided by exact transition matrices from every start tree over 2-3 (thorough: 4) data points.",
@@ -23,6 +23,30 @@ CLAIMED = {
          "Theorems for every number of top-level clones, outlier setting, target values and test function: bootstrap / semi-adapted / fully-adapted samplers are exactly their reported densities over the list of all placements (faithful, normalised, complete), total mass 1, |k-subsets| = C(R,k), incremental weights telescope to target(T)/target(0). Tie: for every parent state over <= 3 (thorough: 4) data points incl. none and outliers-only, the exact outcome distribution of proposal.sample(), log_p on every outcome and create_particle's log_w are compared with an independent enumeration of placements, the target ratio, and the Coq model (vm_compute).",
          "rng.choice(roots, k, replace=False) modelled as a uniform k-subset; the target values gam are inputs of the adapted models (their correctness is C02/C03); NoDup of the placement list not proved.",
          "DESIGN.md section 6 C08"),
+ "C02": ("Coq proof by nested induction over rose forests (root_R entry k = brute-force constrained sum; per-clone version; positivity; sibling-order invariance; floor monotonicity) + vm_compute correspondence and an independent Fraction brute force over all G^clones assignments; FFT stream with an exact integer oracle; floor stream with exact interval bounds",
+         "Theorems for every forest, child count, grid size, data and number of samples: the virtual root's vector equals the constrained sum of the statement, all entries positive, invariant under sibling reordering at any depth, and monotone under raising any convolution entry. Tie: real trees (built directly and through from_dict) over all shapes up to 5 (thorough 7) nodes against the model and the brute force; FFT path and extreme-range floor window checked with exact oracles.",
+         "Exact rational model; float rounding, the 1e-100 floor and FFT round-off are validated, not proved; the FFT window is read relative to the untruncated convolution row (DESIGN.md records the alternative literal reading as an observation).",
+         "DESIGN.md section 6 C02"),
+ "C03": ("Coq proof over an executable Qc model of the FS-CRP density (spec written from the statement + transliteration of the three code paths; clade/equality characterisation) + vm_compute correspondence + exact-Fraction differential oracle over exhaustively enumerated trees x construction histories",
+         "Theorems: the three code paths equal the independent spec for all forests/alpha/root vectors; fused = separate; outlier marginal = single-clone marginal; invariance under sibling/point/outlier permutations; same clades and outliers iff equal up to sibling permutation. Tie: every tree over <= 4 points x outlier subsets x 9 build histories (from_dict, prune-regraft, relabel, label clashes), Tree.__eq__/__hash__ on all pairs.",
+         "The per-sample root vector is an input of the density model (C02 models it). Premises: c > 1, 0 <= p < 1, size >= 1, non-empty clones (outlier prior p = 1 is outside). Floats compared at 1e-9.",
+         "DESIGN.md section 6 C03"),
+ "C05": ("Coq proof over Qc (binomial theorem, Chu-Vandermonde for rising factorials, genotype/evaf bounds, mixture normalisation, cluster product, outlier terms) + correspondence of the real load_data with the Coq model (vm_compute) and an independent exact-rational model + implementation-only sum-over-alternate-counts oracle",
+         "Theorems for every depth, copy-number state, purity, error rate and grid: binomial and beta-binomial pmfs sum to one, the genotype mixture sums to one over alternate counts, expected VAF stays inside (0,1), a cluster is the product of its members, outlier terms scale with cluster size. Tie: generated TSV files through the real loader (both densities, precisions, grids 2..101, clustered/unclustered, depths up to 1e4).",
+         "lgamma ratio = rising factorial and float rounding validated at 1e-9, not proved; the guard normal_cn >= 1 is explicit (normal_cn = 0 with f = 0 divides by zero in the code and is outside the quantifier); 'cluster size' read as number of loaded members.",
+         "DESIGN.md section 6 C05"),
+ "C10": ("Coq proof (max-plus table invariants, chain upper bound, traceback realises the table entry) over an integer-score model of map.py + vm_compute correspondence + brute-force maximum",
+         "Theorems for every forest, grid size and integer score grid, per sample: the traced assignment is on the grid, feasible (clone >= sum of children, top level <= 1) and maximal over all feasible assignments; prevalences are non-negative. Tie: get_map_node_ccfs_and_clonal_prev_dicts on forests <= 6 nodes, 1-3 samples, integer-valued grids; indices compared exactly where the maximiser is unique, otherwise by score and feasibility.",
+         "Integer-score model (the constant log prior is omitted); float ties and prevalence >= -1e-12 validated only; trees with at least one clone (the all-outlier tree is C12).",
+         "DESIGN.md section 6 C10"),
+ "C13": ("Coq proof (Reals) of the density algebra of the Escobar-West update + executable Qc parameter model + recording fakes for beta/bernoulli/gamma.rvs and exhaustive update_concentration_value runs",
+         "Theorems: the two-component Gamma mixture with the code's weight is proportional to x^(a+K-2)(x+n)exp(-x(b - log eta)); the joint has exactly the two conditionals the code samples; K and n exclude outliers; the Qc parameter model denotes the real-valued parameters. Tie: parameters passed to scipy's samplers for grids of (a,b,alpha,K,n,eta) incl. K = 0; update_concentration_value on every tree over <= 4 points.",
+         "Partial: invariance of a two-block Gibbs sweep on a continuous space and the normalisation integrals are not formalised (no measure theory installed); the Gamma function is a section premise (Gam(s+1) = s Gam(s), Gam > 0, witness given); stdlib real axioms + classic + functional extensionality.",
+         "DESIGN.md section 6 C13"),
+ "C17": ("Coq proof of permutation invariance, kept-set characterisation under the two stated exclusions, numbering, defaults, reject and no-crash for an executable loader model + generated TSV/CSV tables loaded by the real load_data in several row orders, compared with each other, an independent oracle and the Coq model",
+         "Theorems for every table: any permutation of the rows gives the same result; under the statement's exclusions a mutation is kept iff every sample has exactly one usable row; data points are numbered in sorted id order with rows in sorted sample order; defaults; major < minor rejected. Tie: generated tables with controlled defects, tab/comma separated, with/without cluster file, awkward identifiers.",
+         "pandas/CSV parsing is outside the model (identifiers are taken as the loader presents them); all-dropped tables are not compared.",
+         "DESIGN.md section 6 C17"),
 }
 NOT_YET = "check not built yet in this round (work in progress; see DESIGN.md section 9 build order)"
 
